@@ -233,6 +233,21 @@ def run(ctx) -> None:
         if not tests:
             tests = [t for t in xcfg.live_nodes() if t.kind == "test" and any(isinstance(x, ast.Attribute) and x.attr == child_attr for x in ast.walk(t.ast))]
         if not tests:
+            # the child set (or its size) held in a local: `n = len(self._children)` / `if n:`
+            def _is_children(e) -> bool:
+                if isinstance(e, ast.Call) and isinstance(e.func, ast.Name) and e.func.id in ("len", "bool", "list", "tuple", "set") and len(e.args) == 1 and not e.keywords:
+                    e = e.args[0]
+                return self_attr(e) == child_attr
+
+            local_defs: dict = {}
+            for n_ in walk_own(aexit.node):
+                if isinstance(n_, ast.Assign) and len(n_.targets) == 1 and isinstance(n_.targets[0], ast.Name):
+                    local_defs.setdefault(n_.targets[0].id, []).append(n_.value)
+                elif isinstance(n_, ast.Name) and isinstance(n_.ctx, (ast.Store, ast.Del)):
+                    local_defs.setdefault(n_.id, [])
+            holders = {v for v, ds in local_defs.items() if len(ds) == 1 and _is_children(ds[0]) and sum(1 for n_ in walk_own(aexit.node) if isinstance(n_, ast.Name) and n_.id == v and isinstance(n_.ctx, (ast.Store, ast.Del))) == 1}
+            tests = [t for t in xcfg.live_nodes() if t.kind == "test" and any(isinstance(x, ast.Name) and x.id in holders for x in ast.walk(t.ast))]
+        if not tests:
             rep.violate("C13.R4", aexit, aexit.node, "__aexit__ does not check for child contexts that are still open")
         else:
             t = tests[0]
